@@ -193,6 +193,10 @@ func init() {
 		ex.observes = append(ex.observes, args[0])
 		return nil
 	})
+	reg(verifPkg+".PreemptBound", func(fr *frame, args []value) value {
+		sched.maxPreempt = int(asInt64(args[0]))
+		return nil
+	})
 	reg(verifPkg+".Param", func(fr *frame, args []value) value {
 		v, ok := ex.Params[args[0].(string)]
 		if !ok {
@@ -250,12 +254,47 @@ func init() {
 	})
 
 	// ---------------- sync ----------------
-	for _, n := range []string{"(*sync.Mutex).Lock", "(*sync.Mutex).Unlock", "(*sync.RWMutex).Lock", "(*sync.RWMutex).Unlock",
-		"(*sync.RWMutex).RLock", "(*sync.RWMutex).RUnlock", "(*sync.WaitGroup).Add", "(*sync.WaitGroup).Done", "(*sync.WaitGroup).Wait",
-		"runtime.Gosched", "runtime.GC", "runtime.KeepAlive"} {
+	for _, n := range []string{"runtime.GC", "runtime.KeepAlive"} {
 		reg(n, nop)
 	}
-	reg("(*sync.Mutex).TryLock", func(fr *frame, args []value) value { return true })
+	reg("(*sync.Mutex).Lock", func(fr *frame, args []value) value { sched.lock(fr.caller, args[0], "Lock"); return nil })
+	reg("(*sync.Mutex).Unlock", func(fr *frame, args []value) value { sched.unlock(fr.caller, args[0], "Unlock"); return nil })
+	reg("(*sync.RWMutex).Lock", func(fr *frame, args []value) value { sched.lock(fr.caller, args[0], "Lock"); return nil })
+	reg("(*sync.RWMutex).Unlock", func(fr *frame, args []value) value { sched.unlock(fr.caller, args[0], "Unlock"); return nil })
+	reg("(*sync.RWMutex).RLock", func(fr *frame, args []value) value { sched.rlock(fr.caller, args[0]); return nil })
+	reg("(*sync.RWMutex).RUnlock", func(fr *frame, args []value) value { sched.runlock(fr.caller, args[0]); return nil })
+	reg("(*sync.WaitGroup).Add", func(fr *frame, args []value) value {
+		c := sched.wg(args[0])
+		*c += int(asInt64(args[1]))
+		if *c < 0 {
+			panic(targetPanic{"sync: negative WaitGroup counter"})
+		}
+		return nil
+	})
+	reg("(*sync.WaitGroup).Done", func(fr *frame, args []value) value {
+		c := sched.wg(args[0])
+		*c--
+		if *c < 0 {
+			panic(targetPanic{"sync: negative WaitGroup counter"})
+		}
+		return nil
+	})
+	reg("(*sync.WaitGroup).Wait", func(fr *frame, args []value) value {
+		c := sched.wg(args[0])
+		sched.yield(fr.caller, "wg.Wait")
+		sched.block(fr.caller, &parkedOp{what: "wg.Wait", ready: func() bool { return *c == 0 }})
+		return nil
+	})
+	reg("runtime.Gosched", func(fr *frame, args []value) value { sched.yield(fr.caller, "Gosched"); return nil })
+	reg("(*sync.Mutex).TryLock", func(fr *frame, args []value) value {
+		m := sched.mutex(args[0])
+		sched.yield(fr.caller, "TryLock")
+		if m.locked || m.readers > 0 {
+			return false
+		}
+		m.locked = true
+		return true
+	})
 	reg("(*sync.Once).Do", func(fr *frame, args []value) value {
 		// sync.Once{done atomic.Uint32 / uint32, m Mutex}: use field 0 as the flag
 		o := (*args[0].(*value)).(structure)
@@ -584,6 +623,15 @@ func init() {
 		return tuple{v, iface{}}
 	})
 	reg("github.com/tebeka/atexit.Register", nop)
+	// rs/xid: unique ids (host name, pid, time, counter): a fixed id suffices
+	reg("github.com/rs/xid.New", func(fr *frame, args []value) value {
+		a := make(array, 12)
+		for i := range a {
+			a[i] = uint8(0)
+		}
+		return a
+	})
+	reg("(github.com/rs/xid.ID).String", func(fr *frame, args []value) value { return "xid0" })
 	lr := "github.com/sirupsen/logrus"
 	for _, n := range []string{"WithField", "WithFields", "WithError"} {
 		reg(lr+"."+n, func(fr *frame, args []value) value { return (*value)(nil) })
